@@ -91,6 +91,41 @@ Theorem C06_restarts_timestamps_keep sp utc t0 off rs1 rs2 :
            \/ exists t mk mc, keys2 = keys1 ++ (ts1, count ts1 keys1) :: mk /\ closed2 = closed1 ++ (cur1 ++ t) :: mc).
 Proof. exact (timestamps_restarts_keep sp utc t0 off rs1 rs2). Qed.
 
+Require Import FL.Flw.TsdInv FL.Flw.TsdRun FL.Flw.TsdTheorems FL.Flw.TsParse FL.Flw.TsdRestartInv FL.Flw.TsdRestart.
+(* TimestampsDirect naming over sequences of runs (a run with append needs local time or a zero zone offset: with use_utc and another offset the
+   newest file is not found again - a counterexample in Flw/TsdRestart.v shows the reordering; and the probe name rXXXXX must not occur in the fixed part) *)
+Theorem C06_restarts_timestampsdirect sp utc t0 off rs :
+  Forall (run_ok_tsd sp utc off) rs ->
+  let e := if utc then 0%Z else off in
+  (0 <= t0 + e)%Z -> (t0 + elapsed (runs_ops_t rs) + e < sec_max)%Z -> (N.of_nat (length (runs_ops_t rs)) <= usize_max)%N ->
+  let f := wfs (s_w (fst (run (sys0 t0 off) (runs_ops_t rs)))) in
+  exists keys files,
+    (forall c, c_spec c = sp -> tsd_view c e f keys files)
+    /\ concat files = runs_written_t rs
+    /\ keys_ok keys
+    /\ (forall k, In k keys -> (t0 <= fst k <= t0 + elapsed (runs_ops_t rs))%Z).
+Proof. exact (timestampsdirect_restarts sp utc t0 off rs). Qed.
+
+(* ... only the last file of the previous state can be continued (append); without append no earlier file is touched *)
+Theorem C06_restarts_timestampsdirect_keep sp utc t0 off rs1 rs2 :
+  Forall (run_ok_tsd sp utc off) (rs1 ++ rs2) ->
+  let e := if utc then 0%Z else off in
+  (0 <= t0 + e)%Z -> (t0 + elapsed (runs_ops_t (rs1 ++ rs2)) + e < sec_max)%Z ->
+  (N.of_nat (length (runs_ops_t (rs1 ++ rs2))) <= usize_max)%N ->
+  let f1 := wfs (s_w (fst (run (sys0 t0 off) (runs_ops_t rs1)))) in
+  let f2 := wfs (s_w (fst (run (sys0 t0 off) (runs_ops_t (rs1 ++ rs2))))) in
+  exists keys1 files1 keys2 files2,
+    (forall c, c_spec c = sp -> tsd_view c e f1 keys1 files1)
+    /\ concat files1 = runs_written_t rs1
+    /\ (forall c, c_spec c = sp -> tsd_view c e f2 keys2 files2)
+    /\ concat files2 = runs_written_t (rs1 ++ rs2)
+    /\ keys_ok keys2
+    /\ (files1 = []
+        \/ exists closed cur t mk more,
+             files1 = closed ++ [cur] /\ keys2 = keys1 ++ mk /\ files2 = closed ++ (cur ++ t) :: more)
+    /\ (Forall no_append rs2 -> exists mk more, keys2 = keys1 ++ mk /\ files2 = files1 ++ more).
+Proof. exact (timestampsdirect_restarts_keep sp utc t0 off rs1 rs2). Qed.
+
 Check C06_oracle_sound. Check C06_tail_sound. Check C06_restarts_numbers. Check C06_restarts_keep.
 Print Assumptions C06_restarts_numbers.
 Print Assumptions C06_restarts_keep.
@@ -102,3 +137,7 @@ Check C06_restarts_timestamps.
 Print Assumptions C06_restarts_timestamps.
 Check C06_restarts_timestamps_keep.
 Print Assumptions C06_restarts_timestamps_keep.
+Check C06_restarts_timestampsdirect.
+Print Assumptions C06_restarts_timestampsdirect.
+Check C06_restarts_timestampsdirect_keep.
+Print Assumptions C06_restarts_timestampsdirect_keep.
